@@ -88,17 +88,37 @@ def digest(x):
   return hashlib.sha1(json.dumps(jsonable(x), sort_keys=True).encode()).hexdigest()[:16]
 
 
+# Interpreter-level configurations under which a user may run the library. A sub-space executed under configuration
+# <cfg> is recorded as '<sub>@<cfg>'; the variables must be in the environment before jax is imported, so such cases
+# only run in worker processes started for that configuration (and in a replay, whose process sets them first).
+CONFIGS = {
+    'x64': {'JAX_ENABLE_X64': '1'},                          # 64-bit default dtypes
+    'legacy_prng': {'JAX_THREEFRY_PARTITIONABLE': '0'},      # legacy threefry bit layout
+    'rbg': {'JAX_DEFAULT_PRNG_IMPL': 'rbg'},                 # another PRNG implementation behind PRNGKey()
+    'nojit': {'JAX_DISABLE_JIT': '1'},                       # op-by-op execution
+}
+
+
+def config_env(sub):
+  return CONFIGS[sub.split('@', 1)[1]] if '@' in sub else {}
+
+
 def execute(module_name, sub, case):
   """Runs one case. Returns a result record (picklable)."""
   import importlib
   mod = importlib.import_module(module_name)
+  for k, v in config_env(sub).items():
+    if os.environ.get(k) != v:
+      return {'sub': sub, 'case': case, 'status': 'harness', 'info': None,
+              'msg': 'configuration %s=%s is not in effect in this process' % (k, v)}
+  full_sub, sub = sub, sub.split('@', 1)[0]
   fn = mod.SUBS[sub]
   # per-sub-space limit chosen by the check (macro cases that explore a whole graph need more than the default);
   # VERIF_CASE_TIMEOUT, when set explicitly, is an upper bound for all of them
   timeout_s = getattr(mod, 'TIMEOUTS', {}).get(sub, CASE_TIMEOUT_S)
   if 'VERIF_CASE_TIMEOUT' in os.environ:
     timeout_s = min(timeout_s, CASE_TIMEOUT_S)
-  rec = {'sub': sub, 'case': case, 'status': 'ok', 'info': None}
+  rec = {'sub': full_sub, 'case': case, 'status': 'ok', 'info': None}
   old = None
   use_alarm = hasattr(signal, 'SIGALRM') and _in_main_thread()
   if use_alarm:
@@ -166,6 +186,7 @@ class Ctx:
     self._timeouts = {}
     self._pool = None
     self._pool_workers = 0
+    self.planned = {}   # sub -> cases planned in this run (source of the configuration passes)
     self.known = [k for k in load_known() if k.get('property') == prop and k.get('status') == 'known']
     self.quick = tier == 'quick'
 
@@ -176,10 +197,11 @@ class Ctx:
     reverse_pass: execute the cases a second time in REVERSE order in the same process. Every case is judged by its
     own oracle, so the second pass is a history-independence check: state left behind by one case (module-level
     caches, reused buffers) meets the cases in the opposite order as well."""
+    cases = list(cases)
+    self.planned.setdefault(sub, []).extend(cases)
     if getattr(self, 'only', None) and sub not in self.only:
       return
     if reverse_pass:
-      cases = list(cases)
       cases = cases + cases[::-1]
     for case in cases:
       if self._timeouts.get(sub, 0) >= 2:
@@ -192,14 +214,16 @@ class Ctx:
 
   def pmap(self, sub, cases, workers=None, chunk=8):
     """Parallel execution in spawned worker processes (order of absorption = case order)."""
-    if getattr(self, 'only', None) and sub not in self.only:
-      return
     cases = list(cases)
+    if getattr(self, 'only', None) and sub not in self.only:
+      self.planned.setdefault(sub, []).extend(cases)
+      return
     if not cases:
       return
     workers = workers or int(os.environ.get('VERIF_WORKERS', '0')) or min(16, os.cpu_count() or 4)
     if workers <= 1 or len(cases) <= 2:
       return self.run(sub, cases)
+    self.planned.setdefault(sub, []).extend(cases)
     if sub not in self._determinism_done:
       self._determinism_done.add(sub)
       self._determinism(sub, cases[0])
@@ -228,6 +252,54 @@ class Ctx:
                                           initializer=_worker_init, initargs=(env,))
       self._pool_workers = workers
     return self._pool
+
+  def pmap_config(self, cfg, sub, cases, workers=None, chunk=8):
+    """The cases of `sub` executed in worker interpreters started under configuration `cfg` (see CONFIGS); recorded as
+    sub-space '<sub>@<cfg>'."""
+    if getattr(self, 'only', None) and sub not in self.only and (sub + '@' + cfg) not in self.only:
+      return
+    cases = list(cases)
+    if not cases:
+      return
+    import concurrent.futures as cf
+    import importlib
+    import multiprocessing as mp
+    workers = workers or int(os.environ.get('VERIF_WORKERS', '0')) or min(16, os.cpu_count() or 4)
+    workers = max(1, min(workers, (len(cases) + chunk - 1) // chunk))
+    env = {k: v for k, v in os.environ.items() if k.startswith(('VERIF', 'JAX', 'XLA', 'PYTHON', 'TF_', 'FEDJAX'))}
+    env.update(CONFIGS[cfg])
+    per_case = getattr(importlib.import_module(self.module_name), 'TIMEOUTS', {}).get(sub, CASE_TIMEOUT_S)
+    full = sub + '@' + cfg
+    pool = cf.ProcessPoolExecutor(max_workers=workers, mp_context=mp.get_context('spawn'), initializer=_worker_init,
+                                  initargs=(env,))
+    try:
+      chunks = [cases[i:i + chunk] for i in range(0, len(cases), chunk)]
+      futs = [pool.submit(_worker_chunk, self.module_name, full, ch) for ch in chunks]
+      for ch, f in zip(chunks, futs):
+        try:
+          recs = f.result(timeout=per_case * len(ch) + 600)
+        except Exception as e:  # pylint: disable=broad-except
+          raise HarnessError('worker failure in %s: %r' % (full, e))
+        for r in recs:
+          self._absorb(r)
+    finally:
+      pool.shutdown()
+
+  def config_passes(self, passes):
+    """passes: {cfg: {sub: stride}} - re-executes the planned cases of the listed sub-spaces under interpreter
+    configuration cfg (quick tier: every stride-th planned case, a fixed sub-lattice; thorough tier: all of them)."""
+    done = []
+    for cfg, subs in passes.items():
+      for sub, stride in subs.items():
+        cases = self.planned.get(sub, [])
+        sel = cases if self.tier == 'thorough' else cases[::max(1, stride)]
+        if not sel:
+          continue
+        self.pmap_config(cfg, sub, sel, chunk=max(1, len(sel) // 24))
+        done.append('%s@%s (%d of %d planned cases)' % (sub, cfg, len(sel), len(cases)))
+    if done:
+      self.rule += ('; configuration passes (%s): ' % ', '.join('%s = %s' % (c, ' '.join('%s=%s' % kv for kv in CONFIGS[c].items()))
+                                                            for c in passes) + ', '.join(done))
 
   def close(self):
     if self._pool is not None:
@@ -307,9 +379,10 @@ class Ctx:
     sub = rec['sub']
     case = rec.get('min_case') or rec['case']
     key = self.prop + ':' + case_key(sub, case)
+    plain = self.prop + ':' + case_key(sub.split('@', 1)[0], case)   # a listed finding is the same finding under any configuration
     self.subspaces[sub]['violations'] += 1
     for k in self.known:
-      if wildcard_match(k['match'], key):
+      if wildcard_match(k['match'], key) or wildcard_match(k['match'], plain):
         if k['match'] not in [h['match'] for h in self.known_hits]:
           print('KNOWN-FINDING: property=%s %s [%s]' % (self.prop, k['summary'], k['match']), flush=True)
           self.known_hits.append(k)
